@@ -283,8 +283,17 @@ func (a *Analysis) ruleF2() {
 		return
 	}
 	raw := func(p *ssa.Parameter) string { return "raw(" + p.Name() + ")" }
-	// password
-	pw, _ := key.Args[0].(BytesV)
+	// password (as the bytes stand when the KDF is called)
+	resolveAt := func(v AV) BytesV {
+		b, _ := v.(BytesV)
+		if b.Obj != nil {
+			if bc, ok := key.State[b.Obj].(BufC); ok {
+				return bc.B
+			}
+		}
+		return b
+	}
+	pw := resolveAt(key.Args[0])
 	wantPw := "NFKD(" + raw(sp[0]) + ")"
 	if pw.Str == nil || pw.Str.String() != wantPw {
 		r.Bad("F2", fk+"/password", kp, "", "password operand is %v, BIP39 requires the bytes of NFKD(mnemonic)", key.Args[0])
@@ -292,7 +301,7 @@ func (a *Analysis) ruleF2() {
 		r.OK("F2", fk+"/password", kp, "", "password = []byte(%s)", wantPw)
 	}
 	// salt
-	salt, _ := key.Args[1].(BytesV)
+	salt := resolveAt(key.Args[1])
 	w1 := "NFKD(\"mnemonic\"+" + raw(sp[1]) + ")"
 	w2 := "\"mnemonic\"+NFKD(" + raw(sp[1]) + ")"
 	if salt.Str == nil || (salt.Str.String() != w1 && salt.Str.String() != w2) {
@@ -317,11 +326,29 @@ func (a *Analysis) ruleF2() {
 	}
 	// the result is returned directly: a fresh slice
 	okRet := true
-	for _, ret := range returnsOf(fn) {
-		if len(ret.Results) != 1 || returnedValue(ret, 0) != key.Instr.(ssa.Value) {
-			okRet = false
-			r.Bad("F2r", fk+"/result", a.P.InstrPos(ret), "", "%s returns %s instead of the slice pbkdf2.Key returned: not (necessarily) a fresh 64-byte result", fk, ret.Results[0].String())
+	keyRes, _ := key.Res.(BytesV)
+	nRet := 0
+	for _, x := range topExits(e, fn) {
+		nRet++
+		got, isB := BytesV{}, false
+		if len(x.Vals) == 1 {
+			got, isB = x.Vals[0].(BytesV)
 		}
+		same := isB && keyRes.Obj != nil && got.Obj == keyRes.Obj && got.WinOf == nil
+		if same {
+			// nothing wrote to it between the call and the return
+			if bc, ok := x.State[keyRes.Obj].(BufC); !ok || bc.B.Src != "pbkdf2.Key" {
+				same = false
+			}
+		}
+		if !same {
+			okRet = false
+			r.Bad("F2r", fk+"/result", a.P.InstrPos(x.Ret), "", "%s returns %v instead of the slice pbkdf2.Key returned, unchanged: not (necessarily) a fresh 64-byte result", fk, x.Vals)
+		}
+	}
+	if nRet == 0 {
+		okRet = false
+		r.Unk("F2r", fk+"/result", pos, "", "no return of %s was evaluated", fk)
 	}
 	if okRet {
 		r.OK("F2r", fk+"/result", kp, "", "returns the fresh slice from pbkdf2.Key unchanged")
@@ -554,6 +581,7 @@ func (a *Analysis) ruleF3() {
 				}
 				// (e) exits
 				okE := true
+				okS := true
 				for _, x := range topExits(e, fn) {
 					if len(x.Vals) != 2 {
 						continue
@@ -574,6 +602,21 @@ func (a *Analysis) ruleF3() {
 							okE = false
 						}
 					case ev.Kind == ekFresh || ev.Kind == ekSentinel || ev.Kind == ekWrap || (ev.Kind == ekUnknown && ev.NonNil):
+						// a failure with an accepted count: only because the read failed
+						if lc.Const != nil {
+							failed := false
+							if o := e.errObj[ri.Instr]; o != nil {
+								if c, ok := x.State[o].(CellC); ok {
+									if b, ok := c.V.(BoolV); ok && b.Known && !b.Val {
+										failed = true
+									}
+								}
+							}
+							if !failed {
+								r.Bad("G2s", fk+"/fails-only-with-source", xp, ctx.Name, "with an accepted word count %s can return %v although the read of the source succeeded (or before reading it): it must succeed whenever the source delivers", fk, ev)
+								okS = false
+							}
+						}
 						s, _ := x.Vals[0].(StrV)
 						if s.Kind != skConst || s.S != "" {
 							r.Bad("F3e", fk+"/read-error", xp, ctx.Name, "a failure exit returns %v instead of the empty string", x.Vals[0])
@@ -586,6 +629,9 @@ func (a *Analysis) ruleF3() {
 				}
 				if okE {
 					r.OK("F3e", fk+"/read-error", rdp, ctx.Name, "the read error is tested alone; the failure path returns (\"\", non-nil error)")
+				}
+				if okS && lc.Const != nil {
+					r.OK("G2s", fk+"/fails-only-with-source", rdp, ctx.Name, "every failure exit is on the failed-read edge")
 				}
 			}
 		}
@@ -881,18 +927,61 @@ func (a *Analysis) ruleS2() {
 	fk := fnKey(fn)
 	csSent := a.sentinel("ErrChecksumIncorrect")
 	nExit := 0
-	// the count gate precedes every lookup
-	for _, b := range fn.Blocks {
-		for _, in := range b.Instrs {
-			if lk, ok := in.(*ssa.Lookup); ok && lk.CommaOk || ok && isMapType(lk.X.Type()) {
-				reach := a.Gate3.Res.Reach[b]
-				out := reach.MinusFinite(a.Gate3.Spec)
-				if a.Gate3.Res.Pre[b] || !out.Empty() {
-					r.Bad("S2a", fk+"/gate-before-lookup", a.P.InstrPos(lk), "", "a word is looked up with a token count outside the BIP39 set (%v)", out)
-				} else {
-					r.OK("S2a", fk+"/gate-before-lookup", a.P.InstrPos(lk), "", "lookups happen only with an accepted token count")
+	// the count gate precedes every lookup (lookups in module functions called from the gate's
+	// function are judged by the block of the call)
+	gateFn := a.Gate3.Res.Fn
+	type lkSite struct {
+		lk     *ssa.Lookup
+		blocks []*ssa.BasicBlock // blocks of the gate function through which the lookup is reached
+		before bool              // not (only) reached through the gate function
+	}
+	var sites []lkSite
+	var walk func(f *ssa.Function, via []*ssa.BasicBlock, inGate bool, depth int, seen map[*ssa.Function]bool)
+	walk = func(f *ssa.Function, via []*ssa.BasicBlock, inGate bool, depth int, seen map[*ssa.Function]bool) {
+		if depth > 6 || seen[f] {
+			return
+		}
+		seen[f] = true
+		defer delete(seen, f)
+		for _, b := range f.Blocks {
+			for _, in := range b.Instrs {
+				if lk, ok := in.(*ssa.Lookup); ok && lk.CommaOk || ok && isMapType(lk.X.Type()) {
+					s := lkSite{lk: lk, blocks: via, before: !inGate}
+					if f == gateFn {
+						s.blocks = []*ssa.BasicBlock{b}
+					}
+					sites = append(sites, s)
+				}
+				if c, ok := in.(ssa.CallInstruction); ok {
+					if g := c.Common().StaticCallee(); g != nil && a.isModuleFunc(g) && len(g.Blocks) > 0 {
+						switch {
+						case g == gateFn:
+							walk(g, nil, true, depth+1, seen)
+						case f == gateFn:
+							walk(g, []*ssa.BasicBlock{b}, true, depth+1, seen)
+						default:
+							walk(g, via, inGate, depth+1, seen)
+						}
+					}
 				}
 			}
+		}
+	}
+	walk(fn, nil, fn == gateFn, 0, map[*ssa.Function]bool{})
+	for _, s := range sites {
+		var reach ZSet
+		pre := s.before
+		for _, b := range s.blocks {
+			reach = reach.Union(a.Gate3.Res.Reach[b])
+			if a.Gate3.Res.Pre[b] {
+				pre = true
+			}
+		}
+		out := reach.MinusFinite(a.Gate3.Spec)
+		if pre || !out.Empty() {
+			r.Bad("S2a", fk+"/gate-before-lookup", a.P.InstrPos(s.lk), "", "a word is looked up with a token count outside the BIP39 set (%v)", out)
+		} else {
+			r.OK("S2a", fk+"/gate-before-lookup", a.P.InstrPos(s.lk), "", "lookups happen only with an accepted token count")
 		}
 	}
 	seenClass := map[string]bool{}
@@ -901,7 +990,7 @@ func (a *Analysis) ruleS2() {
 		for _, lc := range a.langCtxs() {
 			ctx := a.sizeCtx("N", &W, a.Gate3, lc)
 			e := a.eval(fn, ctx)
-			for _, x := range topExits(e, fn) {
+			for _, x := range delegatedExits(e, fn) {
 				nExit++
 				xp := a.P.InstrPos(x.Ret)
 				key := fk + "/exit" + exitLabel(x.Ret)
@@ -915,7 +1004,7 @@ func (a *Analysis) ruleS2() {
 				}
 				if first == nil {
 					// no data-dependent condition controls this exit in this context
-					if lc.Const == nil && x.InLoop {
+					if lc.Const == nil {
 						// unsupported language: the nil map makes every lookup fail (condition folded)
 						if ev.Kind == ekFresh || ev.Kind == ekUnknown && ev.NonNil {
 							r.OK("S2e", key, xp, ctx.Name, "unsupported language: every lookup fails, a non-nil error is returned")
@@ -1293,6 +1382,25 @@ func hasKey(key string, fns ...*ssa.Function) bool {
 func (a *Analysis) touchesPackageState(f *ssa.Function) bool {
 	for _, b := range f.Blocks {
 		for _, in := range b.Instrs {
+			for _, op := range in.Operands(nil) {
+				if g, ok := (*op).(*ssa.Global); ok && g.Pkg != nil && a.P.InModule(g.Pkg) {
+					return true
+				}
+			}
+		}
+	}
+	return false
+}
+
+// touchesPackageStateExceptLoads: the function uses a module global other than by loading its value.
+func (a *Analysis) touchesPackageStateExceptLoads(f *ssa.Function) bool {
+	for _, b := range f.Blocks {
+		for _, in := range b.Instrs {
+			if u, ok := in.(*ssa.UnOp); ok && u.Op == token.MUL {
+				if _, isG := u.X.(*ssa.Global); isG {
+					continue
+				}
+			}
 			for _, op := range in.Operands(nil) {
 				if g, ok := (*op).(*ssa.Global); ok && g.Pkg != nil && a.P.InModule(g.Pkg) {
 					return true
